@@ -1,96 +1,587 @@
 import WindVerif.Spec.CacheOps
 /-! Theorems about the abstract LRU cache (recency list), including its justification by time stamps. -/
+set_option linter.unusedVariables false
 namespace WindVerif.Cache.LruSpec
 open WindVerif.Cache
 
+/-! ### auxiliary facts about `lookup`, `without` and key-`Nodup` lists -/
+
+theorem mem_of_lookup {l : St} {k : Key} {v : Val} (h : l.lookup k = some v) : (k, v) ∈ l := by
+  induction l with
+  | nil => simp at h
+  | cons p r ih =>
+    obtain ⟨a, b⟩ := p
+    simp only [List.lookup_cons] at h
+    split at h
+    · rename_i he; simp at he h; simp [he, h]
+    · exact List.mem_cons_of_mem _ (ih h)
+
+theorem lookup_of_mem {l : St} (hn : (l.map (·.1)).Nodup) {k : Key} {v : Val} (h : (k, v) ∈ l) :
+    l.lookup k = some v := by
+  induction l with
+  | nil => simp at h
+  | cons p r ih =>
+    obtain ⟨a, b⟩ := p
+    simp only [List.map_cons, List.nodup_cons, List.mem_map] at hn
+    simp only [List.lookup_cons]
+    rcases List.mem_cons.1 h with he | hm
+    · cases he; simp
+    · have : (k == a) = false := by
+        simp; intro hka; subst hka; exact hn.1 ⟨_, hm, rfl⟩
+      simp [this, ih hn.2 hm]
+
+theorem lookup_iff {l : St} (hn : (l.map (·.1)).Nodup) {k : Key} {v : Val} :
+    l.lookup k = some v ↔ (k, v) ∈ l := ⟨mem_of_lookup, lookup_of_mem hn⟩
+
+theorem lookup_none_iff {l : St} {k : Key} : l.lookup k = none ↔ k ∉ l.map (·.1) := by
+  simp [List.lookup_eq_none_iff]
+  grind
+
+theorem lookup_isSome_iff {l : St} {k : Key} : (l.lookup k).isSome ↔ k ∈ l.map (·.1) := by
+  have := @lookup_none_iff l k
+  cases h : l.lookup k <;> simp_all
+
+theorem mem_without {l : St} {k : Key} {p : Key × Val} : p ∈ without l k ↔ p ∈ l ∧ p.1 ≠ k := by
+  simp [without]
+
+theorem keys_without (l : St) (k : Key) : (without l k).map (·.1) = (l.map (·.1)).filter (· ≠ k) := by
+  simp [without, List.filter_map]; rfl
+
+theorem nodup_without {l : St} (hn : (l.map (·.1)).Nodup) (k : Key) : ((without l k).map (·.1)).Nodup := by
+  rw [keys_without]; exact hn.filter _
+
+theorem lookup_without_self (l : St) (k : Key) : (without l k).lookup k = none := by
+  rw [lookup_none_iff, keys_without]; simp
+
+theorem lookup_without_ne (l : St) {k k' : Key} (h : k' ≠ k) : (without l k).lookup k' = l.lookup k' := by
+  induction l with
+  | nil => rfl
+  | cons p r ih =>
+    obtain ⟨a, b⟩ := p
+    simp only [without, List.filter_cons] at ih ⊢
+    by_cases hak : a = k
+    · subst hak
+      have : (k' == a) = false := by simp [h]
+      simp only [List.lookup_cons, this]
+      simp_all
+    · simp_all [List.lookup_cons]
+
+theorem length_without {l : St} (hn : (l.map (·.1)).Nodup) {k : Key} (hk : k ∈ l.map (·.1)) :
+    (without l k).length + 1 = l.length := by
+  induction l with
+  | nil => simp at hk
+  | cons p r ih =>
+    obtain ⟨a, b⟩ := p
+    simp only [List.map_cons, List.nodup_cons] at hn
+    by_cases hak : a = k
+    · subst hak
+      have : without ((a, b) :: r) a = r := by
+        simp only [without, List.filter_cons]; simp
+        intro x y hm hx; subst hx; exact hn.1 (List.mem_map.2 ⟨_, hm, rfl⟩)
+      simp [this]
+    · have hk' : k ∈ r.map (·.1) := by
+        simp only [List.map_cons, List.mem_cons] at hk
+        rcases hk with h | h
+        · exact absurd h.symm hak
+        · exact h
+      have := ih hn.2 hk'
+      simp only [without, List.filter_cons] at this ⊢
+      simp_all
+
+theorem length_without_le (l : St) (k : Key) : (without l k).length ≤ l.length := List.length_filter_le _ _
+
+theorem perm_front {l : St} (hn : (l.map (·.1)).Nodup) {k : Key} {v : Val} (h : (k, v) ∈ l) :
+    ((k, v) :: without l k).Perm l := by
+  induction l with
+  | nil => simp at h
+  | cons p r ih =>
+    obtain ⟨a, b⟩ := p
+    simp only [List.map_cons, List.nodup_cons] at hn
+    by_cases hak : a = k
+    · subst hak
+      have hr : without ((a, b) :: r) a = r := by
+        simp only [without, List.filter_cons]; simp
+        intro x y hm hx; subst hx; exact hn.1 (List.mem_map.2 ⟨_, hm, rfl⟩)
+      have hb : b = v := by
+        rcases List.mem_cons.1 h with he | hm
+        · cases he; rfl
+        · exact absurd (List.mem_map.2 ⟨_, hm, rfl⟩) hn.1
+      subst hb; rw [hr]
+    · have hm : (k, v) ∈ r := by
+        rcases List.mem_cons.1 h with he | hm
+        · cases he; exact absurd rfl hak
+        · exact hm
+      have hw : without ((a, b) :: r) k = (a, b) :: without r k := by
+        simp only [without, List.filter_cons]; simp [hak]
+      rw [hw]
+      exact (List.Perm.swap _ _ _).trans ((ih hn.2 hm).cons _)
+
+
+theorem get_eq_of_mem {l : St} (hn : (l.map (·.1)).Nodup) {k : Key} {v : Val} (h : (k, v) ∈ l) :
+    get l k = .ok ((k, v) :: without l k, v) := by
+  simp [get, lookup_of_mem hn h]
+
+theorem get_ok {l l' : St} {k : Key} {v : Val} (hg : get l k = .ok (l', v)) :
+    l.lookup k = some v ∧ l' = (k, v) :: without l k := by
+  unfold get at hg
+  split at hg
+  · rename_i w hw; simp at hg; obtain ⟨h1, h2⟩ := hg; subst h2; exact ⟨hw, h1.symm⟩
+  · simp at hg
+
 /-- well-formedness (no repeated key, at most `cap` entries) is preserved by every primitive -/
-theorem wf_get (cap : Nat) (l l' : St) (k : Key) (v : Val) (h : Wf cap l) (hg : get l k = .ok (l', v)) : Wf cap l' := sorry
+theorem wf_get (cap : Nat) (l l' : St) (k : Key) (v : Val) (h : Wf cap l) (hg : get l k = .ok (l', v)) : Wf cap l' := by
+  obtain ⟨hl, rfl⟩ := get_ok hg
+  have hp := perm_front h.1 (mem_of_lookup hl)
+  exact ⟨((hp.map _).nodup_iff).2 h.1, hp.length_eq ▸ h.2⟩
+
+theorem set_cases (cap : Nat) (l : St) (k : Key) (v : Val) :
+    ((l.lookup k).isSome ∧ set cap l k v = .ok ((k, v) :: without l k)) ∨
+    (l.lookup k = none ∧ cap ≤ l.length ∧ set cap l k v = .ok ((k, v) :: l.dropLast)) ∨
+    (l.lookup k = none ∧ l.length < cap ∧ set cap l k v = .ok ((k, v) :: l)) := by
+  unfold set
+  cases h : l.lookup k with
+  | some w => simp
+  | none =>
+    by_cases hc : cap ≤ l.length
+    · simp [hc]
+    · simp [hc]; omega
+
+theorem nodup_dropLast {l : St} (hn : (l.map (·.1)).Nodup) : ((l.dropLast).map (·.1)).Nodup := by
+  rw [List.map_dropLast]; exact hn.sublist (List.dropLast_sublist _)
+
+theorem wf_set' (cap : Nat) (hc : 1 ≤ cap) (l l' : St) (k : Key) (v : Val) (h : Wf cap l)
+    (hs : set cap l k v = .ok l') : Wf cap l' := by
+  rcases set_cases cap l k v with ⟨h1, h2⟩ | ⟨h1, h2, h3⟩ | ⟨h1, h2, h3⟩
+  · rw [h2] at hs; cases hs
+    obtain ⟨w, hw⟩ := Option.isSome_iff_exists.1 h1
+    have hp := perm_front h.1 (mem_of_lookup hw)
+    refine ⟨?_, ?_⟩
+    · simp only [List.map_cons, List.nodup_cons]
+      refine ⟨?_, nodup_without h.1 k⟩
+      rw [← lookup_none_iff]; exact lookup_without_self l k
+    · have := hp.length_eq; simp at this ⊢; have := h.2; omega
+  · rw [h3] at hs; cases hs
+    refine ⟨?_, ?_⟩
+    · simp only [List.map_cons, List.nodup_cons]
+      refine ⟨?_, nodup_dropLast h.1⟩
+      rw [lookup_none_iff] at h1
+      intro hm; apply h1
+      rw [List.map_dropLast] at hm
+      exact (List.dropLast_sublist _).subset hm
+    · have := h.2; simp; omega
+  · rw [h3] at hs; cases hs
+    refine ⟨?_, ?_⟩
+    · simp only [List.map_cons, List.nodup_cons]
+      exact ⟨lookup_none_iff.1 h1, h.1⟩
+    · simp; omega
+
+theorem set_total (cap : Nat) (l : St) (k : Key) (v : Val) : ∃ l', set cap l k v = .ok l' := by
+  rcases set_cases cap l k v with ⟨_, h2⟩ | ⟨_, _, h3⟩ | ⟨_, _, h3⟩ <;> exact ⟨_, ‹_›⟩
+
 theorem wf_set (cap : Nat) (hc : 1 ≤ cap) (l : St) (k : Key) (v : Val) (h : Wf cap l) :
-    ∃ l', set cap l k v = .ok l' ∧ Wf cap l' := sorry
-theorem wf_del (cap : Nat) (l l' : St) (k : Key) (h : Wf cap l) (hd : del l k = .ok l') : Wf cap l' := sorry
+    ∃ l', set cap l k v = .ok l' ∧ Wf cap l' := by
+  obtain ⟨l', hl⟩ := set_total cap l k v
+  exact ⟨l', hl, wf_set' cap hc l l' k v h hl⟩
+
+theorem del_ok {l l' : St} {k : Key} (hd : del l k = .ok l') : (l.lookup k).isSome ∧ l' = without l k := by
+  unfold del at hd
+  split at hd
+  · simp at hd; exact ⟨‹_›, hd.symm⟩
+  · simp at hd
+
+theorem wf_del (cap : Nat) (l l' : St) (k : Key) (h : Wf cap l) (hd : del l k = .ok l') : Wf cap l' := by
+  obtain ⟨_, rfl⟩ := del_ok hd
+  exact ⟨nodup_without h.1 k, Nat.le_trans (length_without_le l k) h.2⟩
 
 /-- a lookup returns what is stored, fails with `KeyError` exactly for absent keys, and changes no content -/
 theorem get_spec (cap : Nat) (l : St) (k : Key) (h : Wf cap l) :
     (∀ v, l.lookup k = some v → ∃ l', get l k = .ok (l', v) ∧ l'.Perm l ∧ l'.head? = some (k, v)) ∧
-    (l.lookup k = none → get l k = .error .keyError) := sorry
+    (l.lookup k = none → get l k = .error .keyError) := by
+  constructor
+  · intro v hv
+    exact ⟨_, by simp [get, hv], perm_front h.1 (mem_of_lookup hv), rfl⟩
+  · intro hn; simp [get, hn]
+
+theorem lookup_dropLast {l : St} (hn : (l.map (·.1)).Nodup) {k : Key} {w : Val}
+    (h : l.dropLast.lookup k = some w) : l.lookup k = some w :=
+  lookup_of_mem hn ((List.dropLast_sublist _).subset (mem_of_lookup h))
+
+theorem lookup_cons_ne {l : St} {k k' : Key} (v : Val) (h : k' ≠ k) : ((k, v) :: l).lookup k' = l.lookup k' := by
+  have : (k' == k) = false := by simp [h]
+  simp [List.lookup_cons, this]
 
 /-- after `c[k] = v` a lookup of `k` gives `v`; every other key that is still present keeps its value -/
 theorem lookup_after_set (cap : Nat) (hc : 1 ≤ cap) (l l' : St) (k : Key) (v : Val) (h : Wf cap l)
     (hs : set cap l k v = .ok l') :
-    l'.lookup k = some v ∧ ∀ k', k' ≠ k → ∀ w, l'.lookup k' = some w → l.lookup k' = some w := sorry
+    l'.lookup k = some v ∧ ∀ k', k' ≠ k → ∀ w, l'.lookup k' = some w → l.lookup k' = some w := by
+  rcases set_cases cap l k v with ⟨h1, h2⟩ | ⟨h1, h2, h3⟩ | ⟨h1, h2, h3⟩
+  · rw [h2] at hs; cases hs
+    refine ⟨by simp, fun k' hk' w hw => ?_⟩
+    rwa [lookup_cons_ne v hk', lookup_without_ne l hk'] at hw
+  · rw [h3] at hs; cases hs
+    refine ⟨by simp, fun k' hk' w hw => ?_⟩
+    rw [lookup_cons_ne v hk'] at hw
+    exact lookup_dropLast h.1 hw
+  · rw [h3] at hs; cases hs
+    refine ⟨by simp, fun k' hk' w hw => ?_⟩
+    rwa [lookup_cons_ne v hk'] at hw
 
 /-- storing a new key into a full cache removes exactly the last (least recently used) entry and nothing else -/
 theorem evicts_exactly_lru (cap : Nat) (hc : 1 ≤ cap) (l : St) (k : Key) (v : Val) (h : Wf cap l)
     (hfull : l.length = cap) (hnew : l.lookup k = none) :
-    ∃ init last, l = init ++ [last] ∧ set cap l k v = .ok ((k, v) :: init) := sorry
+    ∃ init last, l = init ++ [last] ∧ set cap l k v = .ok ((k, v) :: init) := by
+  have hne : l ≠ [] := by intro h0; subst h0; simp at hfull; omega
+  refine ⟨l.dropLast, l.getLast hne, (List.dropLast_concat_getLast hne).symm, ?_⟩
+  simp [set, hnew, hfull]
 
 /-- with room left nothing is removed; storing to a present key removes nothing either -/
 theorem no_eviction (cap : Nat) (l l' : St) (k : Key) (v : Val) (h : Wf cap l)
     (hroom : l.length < cap ∨ (l.lookup k).isSome) (hs : set cap l k v = .ok l') :
-    ∀ k', (l.lookup k').isSome → (l'.lookup k').isSome := sorry
+    ∀ k', (l.lookup k').isSome → (l'.lookup k').isSome := by
+  intro k' hk'
+  rcases set_cases cap l k v with ⟨h1, h2⟩ | ⟨h1, h2, h3⟩ | ⟨h1, h2, h3⟩
+  · rw [h2] at hs; cases hs
+    by_cases hkk : k' = k
+    · subst hkk; simp
+    · rwa [lookup_cons_ne v hkk, lookup_without_ne l hkk]
+  · rcases hroom with hr | hr
+    · omega
+    · simp [h1] at hr
+  · rw [h3] at hs; cases hs
+    by_cases hkk : k' = k
+    · subst hkk; simp
+    · rwa [lookup_cons_ne v hkk]
 
 /-- deletion removes exactly the key -/
 theorem del_spec (cap : Nat) (l : St) (k : Key) (h : Wf cap l) :
     ((l.lookup k).isSome → ∃ l', del l k = .ok l' ∧ l'.lookup k = none ∧
         ∀ k', k' ≠ k → l'.lookup k' = l.lookup k') ∧
-    (l.lookup k = none → del l k = .error .keyError) := sorry
+    (l.lookup k = none → del l k = .error .keyError) := by
+  constructor
+  · intro hs
+    exact ⟨_, by simp [del, hs], lookup_without_self l k, fun k' hk' => lookup_without_ne l hk'⟩
+  · intro hn; simp [del, hn]
+
 
 /-! ### time stamps: the list order *is* recency, the victim *is* the least recently used entry -/
 open LruTs
 
+def tsProj (e : Key × Val × Nat) : Key × Val := (e.1, e.2.1)
+
+theorem zipWith_proj (l : St) (stamps : List Nat) (h : stamps.length = l.length) :
+    (List.zipWith (fun (p : Key × Val) (c : Nat) => (p.1, p.2, c)) l stamps).map tsProj = l ∧
+    (List.zipWith (fun (p : Key × Val) (c : Nat) => (p.1, p.2, c)) l stamps).map (·.2.2) = stamps := by
+  induction l generalizing stamps with
+  | nil => cases stamps <;> simp_all
+  | cons p r ih =>
+    cases stamps with
+    | nil => simp at h
+    | cons c cs =>
+      simp only [List.length_cons, Nat.add_right_cancel_iff] at h
+      have := ih cs h
+      simp only [List.zipWith_cons_cons, List.map_cons, this.1, this.2]
+      simp [tsProj]
+
+theorem zipWith_self (es : List (Key × Val × Nat)) :
+    List.zipWith (fun (p : Key × Val) (c : Nat) => (p.1, p.2, c)) (es.map tsProj) (es.map (·.2.2)) = es := by
+  induction es with
+  | nil => rfl
+  | cons e r ih => simp [tsProj, ih]
+
+theorem presents_iff (l : St) (t : LruTs.St) :
+    Presents l t ↔ t.entries.map tsProj = l ∧ (t.entries.map (·.2.2)).Pairwise (· > ·) ∧
+      ∀ e ∈ t.entries, e.2.2 < t.clock := by
+  constructor
+  · rintro ⟨stamps, hlen, hpw, hlt, he⟩
+    have := zipWith_proj l stamps hlen
+    rw [← he] at this
+    refine ⟨this.1, this.2 ▸ hpw, fun e hm => hlt _ ?_⟩
+    rw [← this.2]; exact List.mem_map.2 ⟨e, hm, rfl⟩
+  · rintro ⟨h1, h2, h3⟩
+    refine ⟨t.entries.map (·.2.2), by simp [← h1], h2, ?_, ?_⟩
+    · intro x hx; obtain ⟨e, hm, rfl⟩ := List.mem_map.1 hx; exact h3 e hm
+    · rw [← h1]; exact (zipWith_self _).symm
+
+theorem proj_filter (es : List (Key × Val × Nat)) (k : Key) :
+    (es.filter (fun e => e.1 ≠ k)).map tsProj = without (es.map tsProj) k := by
+  simp [without, List.filter_map]; rfl
+
+theorem presents_front {l : St} {t : LruTs.St} (hp : Presents l t) (k : Key) (v : Val) (es : List (Key × Val × Nat))
+    (l' : St) (hsub : es.Sublist t.entries) (hl' : es.map tsProj = l') :
+    Presents ((k, v) :: l') { entries := (k, v, t.clock) :: es, clock := t.clock + 1 } := by
+  rw [presents_iff] at hp ⊢
+  obtain ⟨h1, h2, h3⟩ := hp
+  refine ⟨by simp [tsProj, hl'], ?_, ?_⟩
+  · simp only [List.map_cons, List.pairwise_cons]
+    refine ⟨?_, h2.sublist (hsub.map _)⟩
+    intro x hx; obtain ⟨e, hm, rfl⟩ := List.mem_map.1 hx
+    exact h3 e (hsub.subset hm)
+  · intro e hm
+    rcases List.mem_cons.1 hm with rfl | hm
+    · simp
+    · have := h3 e (hsub.subset hm); simp; omega
+
 theorem presents_get (l l' : St) (t : LruTs.St) (k : Key) (v : Val) (hp : Presents l t)
     (hg : get l k = .ok (l', v)) :
-    Presents l' { entries := (k, v, t.clock) :: LruTs.without t k, clock := t.clock + 1 } := sorry
+    Presents l' { entries := (k, v, t.clock) :: LruTs.without t k, clock := t.clock + 1 } := by
+  obtain ⟨_, rfl⟩ := get_ok hg
+  refine presents_front hp k v _ _ (List.filter_sublist) ?_
+  rw [LruTs.without, proj_filter, ((presents_iff l t).1 hp).1]
 
 theorem presents_set_present (cap : Nat) (l l' : St) (t : LruTs.St) (k : Key) (v : Val) (hp : Presents l t)
     (hin : (l.lookup k).isSome) (hs : set cap l k v = .ok l') :
-    Presents l' { entries := (k, v, t.clock) :: LruTs.without t k, clock := t.clock + 1 } := sorry
+    Presents l' { entries := (k, v, t.clock) :: LruTs.without t k, clock := t.clock + 1 } := by
+  have : l' = (k, v) :: without l k := by simp [set, hin] at hs; exact hs.symm
+  subst this
+  refine presents_front hp k v _ _ (List.filter_sublist) ?_
+  rw [LruTs.without, proj_filter, ((presents_iff l t).1 hp).1]
+
+theorem presents_set_room (cap : Nat) (l l' : St) (t : LruTs.St) (k : Key) (v : Val) (hp : Presents l t)
+    (hnew : l.lookup k = none) (hroom : l.length < cap) (hs : set cap l k v = .ok l') :
+    Presents l' { entries := (k, v, t.clock) :: t.entries, clock := t.clock + 1 } := by
+  have : l' = (k, v) :: l := by
+    simp [set, hnew, Nat.not_le.2 hroom] at hs; exact hs.symm
+  subst this
+  exact presents_front hp k v _ _ (List.Sublist.refl _) ((presents_iff l t).1 hp).1
+
+theorem presents_del (l l' : St) (t : LruTs.St) (k : Key) (hp : Presents l t) (hd : del l k = .ok l') :
+    Presents l' { entries := LruTs.without t k, clock := t.clock } := by
+  obtain ⟨_, rfl⟩ := del_ok hd
+  rw [presents_iff] at hp ⊢
+  obtain ⟨h1, h2, h3⟩ := hp
+  refine ⟨?_, ?_, ?_⟩
+  · simp only [LruTs.without]; rw [proj_filter, h1]
+  · exact h2.sublist ((List.filter_sublist).map _)
+  · intro e hm; exact h3 e (List.mem_filter.1 hm).1
+
+/-- in a list whose stamps strictly decrease, removing (by value) the last entry is `dropLast` -/
+theorem filter_ne_last (es : List (Key × Val × Nat)) (e : Key × Val × Nat)
+    (hpw : ((es ++ [e]).map (·.2.2)).Pairwise (· > ·)) :
+    (es ++ [e]).filter (· ≠ e) = es := by
+  simp only [List.map_append, List.pairwise_append, List.map_cons, List.map_nil] at hpw
+  obtain ⟨_, _, h3⟩ := hpw
+  rw [List.filter_append]
+  have h1 : es.filter (· ≠ e) = es := by
+    rw [List.filter_eq_self]
+    intro a ha
+    have := h3 _ (List.mem_map.2 ⟨a, ha, rfl⟩) e.2.2 (by simp)
+    simp; intro hae; subst hae; omega
+  rw [h1]; simp
 
 theorem presents_set_evict (cap : Nat) (hc : 1 ≤ cap) (l l' : St) (t : LruTs.St) (k : Key) (v : Val)
     (hw : Wf cap l) (hp : Presents l t) (hnew : l.lookup k = none) (hfull : l.length = cap)
     (hs : set cap l k v = .ok l') :
     ∃ e, IsOldest t e ∧
-      Presents l' { entries := (k, v, t.clock) :: t.entries.filter (· ≠ e), clock := t.clock + 1 } := sorry
+      Presents l' { entries := (k, v, t.clock) :: t.entries.filter (· ≠ e), clock := t.clock + 1 } := by
+  have hl' : l' = (k, v) :: l.dropLast := by
+    simp [set, hnew, hfull] at hs; exact hs.symm
+  subst hl'
+  have hpi := (presents_iff l t).1 hp
+  have hne : t.entries ≠ [] := by
+    intro h0; have := hpi.1; rw [h0] at this; simp at this; subst this; simp at hfull; omega
+  have hsplit := (List.dropLast_concat_getLast hne).symm
+  generalize t.entries.getLast hne = e at hsplit
+  generalize hes : t.entries.dropLast = es at hsplit
+  have hpw := hpi.2.1
+  rw [hsplit] at hpw
+  refine ⟨e, ⟨by rw [hsplit]; simp, ?_⟩, ?_⟩
+  · intro e' he'
+    rw [hsplit] at he'
+    simp only [List.map_append, List.pairwise_append, List.map_cons, List.map_nil] at hpw
+    rcases List.mem_append.1 he' with hm | hm
+    · have := hpw.2.2 _ (List.mem_map.2 ⟨e', hm, rfl⟩) e.2.2 (by simp); omega
+    · simp at hm; subst hm; exact Nat.le_refl _
+  · have hf : t.entries.filter (· ≠ e) = es := by rw [hsplit]; exact filter_ne_last es e hpw
+    rw [hf]
+    refine presents_front hp k v es _ ?_ ?_
+    · rw [← hes]; exact List.dropLast_sublist _
+    · rw [← hes, List.map_dropLast, hpi.1]
 
-theorem presents_set_room (cap : Nat) (l l' : St) (t : LruTs.St) (k : Key) (v : Val) (hp : Presents l t)
-    (hnew : l.lookup k = none) (hroom : l.length < cap) (hs : set cap l k v = .ok l') :
-    Presents l' { entries := (k, v, t.clock) :: t.entries, clock := t.clock + 1 } := sorry
-
-theorem presents_del (l l' : St) (t : LruTs.St) (k : Key) (hp : Presents l t) (hd : del l k = .ok l') :
-    Presents l' { entries := LruTs.without t k, clock := t.clock } := sorry
 
 /-! ### the mixins on the abstract cache: total, and agreeing with the content -/
 
+theorem nodup_of_perm {l l' : St} (hp : l'.Perm l) (hn : (l.map (·.1)).Nodup) : (l'.map (·.1)).Nodup :=
+  ((hp.map _).nodup_iff).2 hn
+
+theorem lookup_perm {l l' : St} (hp : l'.Perm l) (hn : (l.map (·.1)).Nodup) (k : Key) :
+    l'.lookup k = l.lookup k := by
+  have hn' := nodup_of_perm hp hn
+  cases h : l.lookup k with
+  | some v => exact lookup_of_mem hn' (hp.mem_iff.2 (mem_of_lookup h))
+  | none =>
+    rw [lookup_none_iff] at h ⊢
+    intro hm; exact h ((hp.map _).mem_iff.1 hm)
+
+theorem itemsFrom_spec (cap : Nat) (ps : List (Key × Val)) (l : St) (hn : (l.map (·.1)).Nodup)
+    (hsub : ∀ p ∈ ps, p ∈ l) :
+    ∃ l', itemsFrom (prim cap) l (ps.map (·.1)) = .ok (l', ps) ∧ l'.Perm l := by
+  induction ps generalizing l with
+  | nil => exact ⟨l, rfl, List.Perm.refl _⟩
+  | cons p r ih =>
+    obtain ⟨k, v⟩ := p
+    have hm : (k, v) ∈ l := hsub _ (by simp)
+    have hp := perm_front hn hm
+    obtain ⟨l', h1, h2⟩ := ih ((k, v) :: without l k) (nodup_of_perm hp hn)
+      (fun p hp' => hp.mem_iff.2 (hsub p (List.mem_cons_of_mem _ hp')))
+    refine ⟨l', ?_, h2.trans hp⟩
+    simp only [List.map_cons, itemsFrom]
+    have : (prim cap).get l k = .ok ((k, v) :: without l k, v) := get_eq_of_mem hn hm
+    rw [this]; simp only; rw [h1]
+
 theorem items_spec (cap : Nat) (l : St) (h : Wf cap l) :
-    ∃ l', items (prim cap) l = .ok (l', l) ∧ l'.Perm l := sorry
+    ∃ l', items (prim cap) l = .ok (l', l) ∧ l'.Perm l :=
+  itemsFrom_spec cap l l h.1 (fun _ hp => hp)
 
 theorem contains_spec (cap : Nat) (l : St) (k : Key) (h : Wf cap l) :
-    ∃ l', contains (prim cap) l k = .ok (l', (l.lookup k).isSome) ∧ l'.Perm l := sorry
+    ∃ l', contains (prim cap) l k = .ok (l', (l.lookup k).isSome) ∧ l'.Perm l := by
+  have hg : (prim cap).get l k = get l k := rfl
+  cases hl : l.lookup k with
+  | some v =>
+    obtain ⟨l', h1, h2, _⟩ := (get_spec cap l k h).1 v hl
+    exact ⟨l', by simp [contains, hg, h1], h2⟩
+  | none =>
+    have := (get_spec cap l k h).2 hl
+    exact ⟨l, by simp [contains, hg, this], List.Perm.refl _⟩
 
 theorem getD_spec (cap : Nat) (l : St) (k : Key) (h : Wf cap l) :
-    ∃ l', getD (prim cap) l k = .ok (l', l.lookup k) ∧ l'.Perm l := sorry
+    ∃ l', getD (prim cap) l k = .ok (l', l.lookup k) ∧ l'.Perm l := by
+  have hg : (prim cap).get l k = get l k := rfl
+  cases hl : l.lookup k with
+  | some v =>
+    obtain ⟨l', h1, h2, _⟩ := (get_spec cap l k h).1 v hl
+    exact ⟨l', by simp [getD, hg, h1], h2⟩
+  | none =>
+    have := (get_spec cap l k h).2 hl
+    exact ⟨l, by simp [getD, hg, this], List.Perm.refl _⟩
+
+theorem without_idem (l : St) (k : Key) (v : Val) : without ((k, v) :: without l k) k = without l k := by
+  simp [without, List.filter_filter]
 
 theorem pop_spec (cap : Nat) (l : St) (k : Key) (h : Wf cap l) :
     (∀ v, l.lookup k = some v → pop (prim cap) l k = .ok (without l k, v)) ∧
-    (l.lookup k = none → pop (prim cap) l k = .error .keyError) := sorry
+    (l.lookup k = none → pop (prim cap) l k = .error .keyError) := by
+  have hg : (prim cap).get l k = get l k := rfl
+  constructor
+  · intro v hv
+    have h1 : get l k = .ok ((k, v) :: without l k, v) := by simp [get, hv]
+    have h2 : (prim cap).del ((k, v) :: without l k) k = .ok (without l k) := by
+      show del _ _ = _
+      simp [del, without_idem]
+    simp only [pop, hg, h1, h2]
+  · intro hn
+    simp [pop, hg, get, hn]
+
+theorem without_head {k : Key} {v : Val} {r : St} (hn : (((k, v) :: r).map (·.1)).Nodup) :
+    without ((k, v) :: r) k = r := by
+  simp only [List.map_cons, List.nodup_cons] at hn
+  simp only [without, List.filter_cons]; simp
+  intro x y hm hx; subst hx; exact hn.1 (List.mem_map.2 ⟨_, hm, rfl⟩)
 
 theorem popitem_spec (cap : Nat) (l : St) (h : Wf cap l) :
     match l with
     | [] => popitem (prim cap) l = .error .keyError
-    | (k, v) :: r => popitem (prim cap) l = .ok (r, k, v) := sorry
+    | (k, v) :: r => popitem (prim cap) l = .ok (r, k, v) := by
+  cases l with
+  | nil => simp [popitem, prim]
+  | cons p r =>
+    obtain ⟨k, v⟩ := p
+    have := (pop_spec cap ((k, v) :: r) k h).1 v (by simp)
+    rw [without_head h.1] at this
+    have hk : (prim cap).keys ((k, v) :: r) = k :: r.map (·.1) := rfl
+    simp only [popitem, hk, this]
 
-theorem clear_spec (cap : Nat) (l : St) (h : Wf cap l) : clear (prim cap) l = .ok [] := sorry
+theorem clearLoop_spec (cap : Nat) (fuel : Nat) (l : St) (h : Wf cap l) (hf : l.length < fuel) :
+    clearLoop (prim cap) l fuel = .ok [] := by
+  induction fuel generalizing l with
+  | zero => omega
+  | succ n ih =>
+    cases l with
+    | nil => simp [clearLoop, prim]
+    | cons p r =>
+      obtain ⟨k, v⟩ := p
+      have hpi := popitem_spec cap ((k, v) :: r) h
+      simp only at hpi
+      have hwr : Wf cap r := by
+        have h1 := h.1; have h2 := h.2
+        simp only [List.map_cons, List.nodup_cons, List.length_cons] at h1 h2
+        exact ⟨h1.2, by omega⟩
+      have := ih r hwr (by simp at hf; omega)
+      have hk : (prim cap).keys ((k, v) :: r) = k :: r.map (·.1) := rfl
+      simp only [clearLoop, hk, hpi, this]
+
+theorem clear_spec (cap : Nat) (l : St) (h : Wf cap l) : clear (prim cap) l = .ok [] :=
+  clearLoop_spec cap _ l h (by show l.length < l.length + 1; omega)
 
 theorem update_total (cap : Nat) (hc : 1 ≤ cap) (l : St) (ps : List (Key × Val)) (h : Wf cap l) :
-    ∃ l', update (prim cap) l ps = .ok l' ∧ Wf cap l' := sorry
+    ∃ l', update (prim cap) l ps = .ok l' ∧ Wf cap l' := by
+  induction ps generalizing l with
+  | nil => exact ⟨l, rfl, h⟩
+  | cons p r ih =>
+    obtain ⟨k, v⟩ := p
+    obtain ⟨l1, h1, h2⟩ := wf_set cap hc l k v h
+    obtain ⟨l2, h3, h4⟩ := ih l1 h2
+    refine ⟨l2, ?_, h4⟩
+    have : (prim cap).set l k v = .ok l1 := h1
+    simp only [update, this, h3]
 
 theorem setdefault_spec (cap : Nat) (hc : 1 ≤ cap) (l : St) (k : Key) (v : Val) (h : Wf cap l) :
     (∀ w, l.lookup k = some w → ∃ l', setdefault (prim cap) l k v = .ok (l', w) ∧ l'.Perm l) ∧
-    (l.lookup k = none → ∃ l', setdefault (prim cap) l k v = .ok (l', v) ∧ set cap l k v = .ok l') := sorry
+    (l.lookup k = none → ∃ l', setdefault (prim cap) l k v = .ok (l', v) ∧ set cap l k v = .ok l') := by
+  have hg : (prim cap).get l k = get l k := rfl
+  have hs : (prim cap).set l k v = set cap l k v := rfl
+  constructor
+  · intro w hw
+    obtain ⟨l', h1, h2, _⟩ := (get_spec cap l k h).1 w hw
+    exact ⟨l', by simp [setdefault, hg, h1], h2⟩
+  · intro hn
+    have h1 := (get_spec cap l k h).2 hn
+    obtain ⟨l', h2⟩ := set_total cap l k v
+    exact ⟨l', by simp [setdefault, hg, h1, hs, h2], h2⟩
+
+
+theorem subset_of_nodup_length {α} {a b : List α} (ha : a.Nodup) (hs : a ⊆ b) (hl : b.length ≤ a.length) : b ⊆ a := by
+  intro x hx
+  apply Classical.byContradiction
+  intro hxa
+  have hn : (x :: a).Nodup := List.nodup_cons.2 ⟨hxa, ha⟩
+  have hsub : (x :: a) ⊆ b := by
+    intro y hy
+    rcases List.mem_cons.1 hy with rfl | hy
+    · exact hx
+    · exact hs hy
+  have := hn.length_le_of_subset hsub
+  simp at this; omega
 
 theorem eq_spec (cap : Nat) (l : St) (other : List (Key × Val)) (h : Wf cap l)
     (ho : (other.map (·.1)).Nodup) :
     ∃ l' b, eqDict (prim cap) l other = .ok (l', b) ∧ l'.Perm l ∧
-      (b = true ↔ ∀ k, l.lookup k = other.lookup k) := sorry
+      (b = true ↔ ∀ k, l.lookup k = other.lookup k) := by
+  obtain ⟨l', h1, h2⟩ := items_spec cap l h
+  refine ⟨l', _, by simp only [eqDict, h1]; rfl, h2, ?_⟩
+  simp only [Bool.and_eq_true, beq_iff_eq, List.all_eq_true]
+  constructor
+  · rintro ⟨hlen, hall⟩ k
+    cases hl : l.lookup k with
+    | some v => exact (hall _ (mem_of_lookup hl)).symm
+    | none =>
+      cases hok : other.lookup k with
+      | none => rfl
+      | some w =>
+        exfalso
+        have hsub : l.map (·.1) ⊆ other.map (·.1) := by
+          intro x hx
+          obtain ⟨p, hp, rfl⟩ := List.mem_map.1 hx
+          exact List.mem_map.2 ⟨_, mem_of_lookup (hall p hp), rfl⟩
+        have := subset_of_nodup_length h.1 hsub (by simp [hlen])
+        exact lookup_none_iff.1 hl (this (List.mem_map.2 ⟨_, mem_of_lookup hok, rfl⟩))
+  · intro hk
+    have hkeys : ∀ k, k ∈ l.map (·.1) ↔ k ∈ other.map (·.1) := by
+      intro k; rw [← lookup_isSome_iff, ← lookup_isSome_iff, hk]
+    constructor
+    · have a1 := h.1.length_le_of_subset (fun k hk' => (hkeys k).1 hk')
+      have a2 := ho.length_le_of_subset (fun k hk' => (hkeys k).2 hk')
+      simp at a1 a2; omega
+    · intro p hp
+      rw [← hk]; exact lookup_of_mem h.1 hp
 
 end WindVerif.Cache.LruSpec
